@@ -239,17 +239,21 @@ Qed.
 Lemma resetForRetry_armed st rnd :
   Base true st -> sInit st <> None -> (exists sh, sHs st = Some sh /\ hPackets (spH sh) = []) -> Armed (resetForRetry st rnd).
 Proof.
-  intros B Hi [sh [Eh Ep]] Hm. exfalso. revert Hm. unfold resetForRetry. destruct (sInit st) as [si|] eqn:Ei; [|congruence].
-  fold retry_q.
+  intros B Hi [sh [Eh Ep]] Hm. exfalso. revert Hm. destruct (sInit st) as [si|] eqn:Ei; [|congruence].
+  rewrite (resetForRetry_eq st rnd si Ei). unfold retry_result, retry_folds.
   destruct (fold_retry_q (h_list (spH si)) (st_bif st 0)) as [S2 _].
   set (st2 := fold_left retry_q (h_list (spH si)) (st_bif st 0)) in *.
   destruct (fold_retry_q (h_list (spH (sApp st2))) st2) as [S3 _].
   set (st3 := fold_left retry_q (h_list (spH (sApp st2))) st2) in *.
   assert (Hh3 : sHs st3 = Some sh).
   { destruct S3 as [_ [X3 _]]. destruct S2 as [_ [X2 _]]. rewrite X3, X2. exact Eh. }
+  assert (Ha3 : sApp st3 = sApp st).
+  { destruct S3 as [_ [_ [X3 _]]]. destruct S2 as [_ [_ [X2 _]]]. rewrite X3, X2. reflexivity. }
+  destruct (retry_app_space_spec true (spG (sApp st3)) rnd) as [_ [_ [_ [_ [_ Hn]]]]].
+  { rewrite Ha3. apply (sw_gnext _ _ _ (b_app _ _ B)). }
   unfold must_arm, data_outstanding, hasOutstandingCrypto.
   cbn [sInit sHs sApp sConf st_pto st_alarm st_spaces osp_hasOut newSpace spH newHist h_hasOut hNumOut].
-  rewrite Hh3. cbn [osp_hasOut]. unfold h_hasOut.
+  rewrite Hh3. cbn [osp_hasOut]. unfold h_hasOut. rewrite Hn.
   pose proof (b_hs _ _ B) as W. rewrite Eh in W. cbn in W. pose proof (wf_out _ (sw_h _ _ _ W)) as Ho.
   unfold h_list in Ho. rewrite Ep in Ho. cbn in Ho. rewrite Ho. cbn. rewrite andb_false_r. discriminate.
 Qed.
@@ -294,7 +298,7 @@ Proof.
   rewrite (b_panic _ _ B). cbn [Z.eqb negb orb].
   destruct (op_valid st o) eqn:Ev; cbn [negb]; [|intros _; exact A].
   destruct o as [l t la sfs fs size mtu probe rnd|l now delay rs|now rnd|l now|now rnd|now|n now|l now|l|now cs hb]; cbn [op_valid] in Ev.
-  - apply andb_prop in Ev as [Ev Hpr]. apply andb_prop in Ev as [Ev Hsz]. apply andb_prop in Ev as [Hlive Hl].
+  - apply andb_prop in Ev as [Ev Hnil]. apply andb_prop in Ev as [Ev Hpr]. apply andb_prop in Ev as [Ev Hsz]. apply andb_prop in Ev as [Hlive Hl].
     destruct (space_live_sget st l Hl Hlive) as [s Hs].
     pose proof (send_armed st orc l t la sfs fs size mtu probe rnd s B Hl Hs ltac:(lia)) as X.
     destruct (popPN st l rnd) as [st1 pn]. cbn [fst snd] in *. intros BR. apply X; auto.
